@@ -96,3 +96,23 @@ func parseDump(s string) []gInfo {
 	}
 	return out
 }
+
+// onHarnessLock: the goroutine waits for a mutex of the harness itself (the
+// innermost non-runtime frame is harness code). Harness locks are only held for
+// a few instructions by a running goroutine, so this is never a stable state.
+func (g *gInfo) onHarnessLock() bool {
+	if !strings.Contains(g.status, "Mutex") && g.status != "semacquire" {
+		return false
+	}
+	lines := strings.Split(g.stack, "\n")
+	for _, ln := range lines[1:] {
+		if strings.HasPrefix(ln, "\t") || ln == "" {
+			continue
+		}
+		if strings.HasPrefix(ln, "sync.") || strings.HasPrefix(ln, "internal/sync.") || strings.HasPrefix(ln, "runtime.") || strings.HasPrefix(ln, "internal/") {
+			continue
+		}
+		return strings.HasPrefix(ln, "main.")
+	}
+	return false
+}
